@@ -32,7 +32,7 @@ class ExceptionContext(StatusContext):
 
     @property
     def context_id(self) -> str:
-        return f"exception_{self.exception_type}"
+        return f"exception_{self.invocation_id}_{self.exception_type}"
 
     def _to_json(self, app: "Pynenc") -> dict[str, Any]:
         """
